@@ -232,3 +232,146 @@ func VerifC06Apply() {
 		vsymAssert(verifSnap(d).equal(mid), "re-delivering an update that restates the current state changes nothing (no new UID, no row, no flag)")
 	}
 }
+
+// ---- C07: effect ordering with crash points ----
+
+type verifEffect struct {
+	what  string
+	store map[imap.InternalMessageID][]byte // store content after this effect
+	db    *verifdb.DB                       // committed index content after this effect
+}
+
+type verifWorldLog struct {
+	effects []verifEffect
+	store   *verifStore
+	db      *verifdb.DB
+}
+
+func (w *verifWorldLog) snapStore() map[imap.InternalMessageID][]byte {
+	m := make(map[imap.InternalMessageID][]byte, len(w.store.data))
+	for k, v := range w.store.data {
+		m[k] = v
+	}
+	return m
+}
+
+// verifLoggedStore wraps the store stub: every successful mutation is a durable effect.
+type verifLoggedStore struct {
+	*verifStore
+	w *verifWorldLog
+}
+
+func (s *verifLoggedStore) Set(id imap.InternalMessageID, r io.Reader) error {
+	if err := s.verifStore.Set(id, r); err != nil {
+		return err
+	}
+	s.w.effects = append(s.w.effects, verifEffect{"store.Set", s.w.snapStore(), nil})
+	return nil
+}
+func (s *verifLoggedStore) Delete(idl ...imap.InternalMessageID) error {
+	if err := s.verifStore.Delete(idl...); err != nil {
+		return err
+	}
+	s.w.effects = append(s.w.effects, verifEffect{"store.Delete", s.w.snapStore(), nil})
+	return nil
+}
+
+func verifUserLogged() (*user, *verifWorldLog) {
+	u, d, st := verifUser()
+	w := &verifWorldLog{store: st, db: d}
+	u.store = store.NewWriteControlledStore(&verifLoggedStore{st, w})
+	d.OnCommit = func(d *verifdb.DB) {
+		c := d.Clone()
+		c.OnCommit = nil
+		w.effects = append(w.effects, verifEffect{"commit", nil, c})
+	}
+	return u, w
+}
+
+// verifRecover runs the start-up procedure on the state a crash after `prefix` effects leaves behind and checks
+// that every listed message can still be served.
+func verifRecover(w *verifWorldLog, initStore map[imap.InternalMessageID][]byte, initDB *verifdb.DB, prefix int) {
+	storeC := initStore
+	dbC := initDB
+	for i := 0; i < prefix; i++ {
+		if w.effects[i].store != nil {
+			storeC = w.effects[i].store
+		}
+		if w.effects[i].db != nil {
+			dbC = w.effects[i].db
+		}
+	}
+	d := dbC.Clone()
+	d.FaultBudget, d.OnCommit = 0, nil
+	st := &verifStore{data: map[imap.InternalMessageID][]byte{}}
+	for k, v := range storeC {
+		st.data[k] = v
+	}
+	u2 := &user{
+		userID: "verif", store: store.NewWriteControlledStore(st), delimiter: "/", db: d,
+		states: make(map[state.StateID]*state.State), recoveryMailboxID: 1, imapLimits: limits.DefaultLimits(),
+		uidValidityGenerator: imap.NewIncrementalUIDValidityGenerator(), recoveredMessageHashes: utils.NewMessageHashesMap(),
+		log: logrus.WithField("pkg", "gluon/user"),
+	}
+	ctx := context.Background()
+	vsymAssert(u2.deleteAllMessagesMarkedDeleted(ctx) == nil, "start-up purge of messages marked deleted succeeds")
+	vsymAssert(u2.cleanupStaleStoreData(ctx) == nil, "start-up cleanup of stale cache files succeeds")
+	// every listed message can be fetched: its bytes are cached, or it has a remote id to download them from
+	for _, b := range d.Boxes {
+		for _, r := range b.Rows {
+			_, gerr := st.Get(r.Msg)
+			vsymAssert(gerr == nil || !ids.IsRecoveredRemoteMessageID(r.Remote), "after a crash every listed message still has its bytes (or can be re-downloaded)")
+			vsymAssert(d.Msg(r.Msg) != nil, "after a crash every mailbox row refers to an existing message")
+		}
+	}
+	// left-overs are gone: no cache file without a message row, no message still marked deleted
+	for id := range st.data {
+		vsymAssert(d.Msg(id) != nil, "start-up removes cache files without a message row")
+	}
+	for _, m := range d.Msgs {
+		vsymAssert(!m.MarkedDeleted, "start-up purges messages marked deleted")
+	}
+}
+
+// VerifC07Crash: connector-driven message creation / update / deletion with failing steps and a crash after any
+// prefix of the externally visible effects (store writes/deletes, commits).
+func VerifC07Crash() {
+	u, w := verifUserLogged()
+	d, st := w.db, w.store
+	a := d.AddBox("A", "mb-A", 2)
+	d.AddBox("B", "mb-B", 3)
+	id1 := imap.NewInternalMessageID()
+	d.AddMsg(id1, "rm-1", imap.FlagFlagged)
+	a.AddRow(id1, "rm-1", 1, false, false)
+	st.data[id1] = []byte("X-Pm-Gluon-Id: " + id1.String() + "\r\n" + verifLit1)
+	initStore := w.snapStore()
+	initDB := d.Clone()
+	initDB.OnCommit = nil
+	ctx := context.Background()
+	d.FaultBudget = vsymParam("faults")
+	st.faultBudget = vsymParam("faults")
+	var up imap.Update
+	switch vsymChoice("op", 4) {
+	case 0:
+		up = imap.NewMessagesCreated(false, verifMessageCreated("rm-2", verifLit2, "mb-A"), verifMessageCreated("rm-3", verifLit1, "mb-A", "mb-B"))
+	case 1:
+		pm, _ := imap.NewParsedMessage([]byte(verifLit2))
+		up = imap.NewMessageUpdated(imap.Message{ID: "rm-1", Flags: imap.NewFlagSet()}, []byte(verifLit2), []imap.MailboxID{"mb-A"}, pm, false)
+	case 2:
+		up = imap.NewMessagesDeleted("rm-1")
+	case 3:
+		pm, _ := imap.NewParsedMessage([]byte(verifLit2))
+		up = imap.NewMessageUpdated(imap.Message{ID: "rm-9", Flags: imap.NewFlagSet()}, []byte(verifLit2), []imap.MailboxID{"mb-A"}, pm, true)
+	}
+	err := u.apply(ctx, up)
+	if err != nil {
+		vsymCover("op-failed")
+	} else {
+		vsymCover("op-ok")
+	}
+	d.FaultBudget, st.faultBudget = 0, 0
+	// a crash after any number of effects (0 = before the operation, len = after it completed)
+	p := vsymChoice("crashAfter", len(w.effects)+1)
+	vsymCover("crash-point")
+	verifRecover(w, initStore, initDB, p)
+}
